@@ -1,9 +1,11 @@
 CFG = dict(
+    translate=['consts'],
+    gen_lemmas=['proofs/ConstsTieC05.v: constants regenerated from the Go source (gen/RepoConsts.v) equal the constants of the model'],
     n={'quick': 1500, 'thorough': 40000},
     oracle=False,
     reference=False,
     corr='Factory.accept_o/mac_accept_o/accept_all/produce/prf_map (model/Factory.v, over Manager.run for histories) vs the keyset factories of aead, daead, mac, signature, hybrid, jwt, streamingaead, prf on generated keysets',
-    coq_targets=['props/C05.vo'],
+    coq_targets=['proofs/ConstsTieC05.vo', 'props/C05.vo'],
 )
 MANIFEST = dict(
     text='Theorems in coq/props/C05.v about an executable Gallina model (model/Prefix.v, model/Factory.v) of output prefixes, internal/prefixmap and the selection loops of every keyset-primitive factory: the prefix-map lookup equals the specification candidate list (enabled keys whose 5-byte prefix equals the first 5 bytes of the input, in keyset order, then enabled RAW keys); an input is accepted by exactly the first such candidate under which it is valid, so inputs valid only under disabled, destroyed, removed or foreign keys are rejected; the logged id is the id of that key; the MAC second pass and length guard, the try-every-key rule (JWT, streaming) and the PRF id map are characterised; legacy adapters never slice out of range; the producing side uses the unique primary and the output carries its prefix; with distinct ids at most one prefixed key is a candidate. Composition with the C11 manager model: after ANY manager history the handle satisfies the premises. The model is tied to the code by running the extracted model and the real factories on generated keysets (all classes, key-type mixes incl. legacy-primitive stubs, all prefix types and statuses, ids 0 and 2^32-1, explicit protos and Manager histories) and comparing accept/reject, logged key ids, output prefix and output bytes; a direct oracle independent of the model re-derives every verdict from single-key primitives.',
